@@ -438,6 +438,27 @@ type workerOut struct {
 	races    []raceReport
 }
 
+// activityBuffer collects stderr and remembers when something was last written.
+type activityBuffer struct {
+	mu   sync.Mutex
+	buf  bytes.Buffer
+	last time.Time
+}
+
+func (a *activityBuffer) Write(p []byte) (int, error) {
+	a.mu.Lock()
+	defer a.mu.Unlock()
+	a.last = time.Now()
+	return a.buf.Write(p)
+}
+func (a *activityBuffer) touch() { a.mu.Lock(); a.last = time.Now(); a.mu.Unlock() }
+func (a *activityBuffer) idle() time.Duration {
+	a.mu.Lock()
+	defer a.mu.Unlock()
+	return time.Since(a.last)
+}
+func (a *activityBuffer) String() string { a.mu.Lock(); defer a.mu.Unlock(); return a.buf.String() }
+
 type raceReport struct {
 	Sig  string
 	Text string
@@ -449,7 +470,7 @@ func runWorker(bin string, job Job, watchdog time.Duration) *workerOut {
 	cmd := exec.Command(bin, "-test.run", "^TestWorker$", "-test.timeout", "0", "-test.count", "1")
 	cmd.Env = append(os.Environ(), "VSIM_JOB="+string(js), "GORACE=halt_on_error=0 history_size=2", "GOMAXPROCS=4")
 	stdout, _ := cmd.StdoutPipe()
-	var stderr bytes.Buffer
+	var stderr activityBuffer
 	cmd.Stderr = &stderr
 	wo := &workerOut{lines: map[string][]json.RawMessage{}}
 	if err := cmd.Start(); err != nil {
@@ -458,11 +479,26 @@ func runWorker(bin string, job Job, watchdog time.Duration) *workerOut {
 	}
 	done := make(chan struct{})
 	var timer *time.Timer
+	stopWatch := make(chan struct{})
 	if watchdog > 0 {
-		timer = time.AfterFunc(watchdog, func() {
-			wo.timedOut = true
-			cmd.Process.Kill()
-		})
+		// the watchdog is per run: it fires when the worker has printed nothing (no new VSIM-RUN marker) for `watchdog`
+		stderr.touch()
+		go func() {
+			tk := time.NewTicker(time.Second)
+			defer tk.Stop()
+			for {
+				select {
+				case <-stopWatch:
+					return
+				case <-tk.C:
+					if stderr.idle() > watchdog {
+						wo.timedOut = true
+						cmd.Process.Kill()
+						return
+					}
+				}
+			}
+		}()
 	}
 	go func() {
 		defer close(done)
@@ -497,6 +533,7 @@ func runWorker(bin string, job Job, watchdog time.Duration) *workerOut {
 	}()
 	<-done
 	wo.exitErr = cmd.Wait()
+	close(stopWatch)
 	if timer != nil {
 		timer.Stop()
 	}
@@ -864,7 +901,7 @@ func phase(bin string, race bool, prop, tier string, base uint64, bud budget, wo
 				}
 				for n > 0 {
 					job := Job{Mode: "batch", Prop: prop, Tier: tier, Base: base, Start: start, Count: n, Stride: 1, Deadline: deadline, Variants: variants}
-					wo := runWorker(bin, job, time.Duration(envInt("VSIM_WATCHDOG", 600))*time.Second)
+					wo := runWorker(bin, job, time.Duration(envInt("VSIM_WATCHDOG", 180))*time.Second)
 					done := absorb(wo, race, prop, tot, start)
 					if done < 0 {
 						return
